@@ -37,6 +37,7 @@ var c11Own = []*project{
 	{Root: "{\n\t\"a\": [\n\t\t1,\n\t\t2\n\t],\n\t\"b\": {\n\t\t\"c\": \"x\"\n\t}\n}"},
 	{Root: "[\n\t{\n\t\t\"k\": 1 // {min: 0}\n\t},\n\t\"s\"\n]"},
 	{Root: "{\n\t\"t\": @t,\n\t\"n\": 1.5 // {precision: 1}\n}", Types: map[string]string{"@t": "{\n\t\"in\": [\n\t\ttrue\n\t]\n}"}},
+	{Root: "{ // {additionalProperties: \"array\"}\n\t\"foo\": \"bar\",\n\t@k: 1\n}", Types: map[string]string{"@k": `"abc" // {regex: "^[a-z]+$"}`}},
 }
 
 func c11All(p *project) string {
@@ -79,7 +80,7 @@ func C11Harnesses(threads int) []*C11Harness {
 	h1b := &C11Harness{Name: "H1b-own-example-openapi", Pool: true, Setup: func() any {
 		var ss []*jschema.JSchema
 		for i := 0; i < threads; i++ {
-			s, _ := buildProject(c11Own[i%len(c11Own)])
+			s, _ := buildProject(c11Own[(len(c11Own)-1-i%len(c11Own))])
 			s.Check()
 			ss = append(ss, s)
 		}
